@@ -79,7 +79,7 @@ def run(ctx, groups, oracle_only=False):
 def correspond(ctx):
     corr.ensure_driver()
     groups = pcommon.grammar_groups(
-        ctx, n_random=150 if not ctx.thorough else 1500, depth=(2, 5),
+        ctx, n_random=600 if not ctx.thorough else 5000, depth=(2, 5),
         opts=dict(names=False, actions=False, stops=False, fwd=True, extra=True, ws=False),
         modes=[("none",)], entries=[("parse", False), ("peg",)], inputs_per=5,
         enum_depth=2, enum_inputs=gen.enum_inputs(2 if not ctx.thorough else 3, "ab, ") + ["a b", "(a)", "ab ab", "((a) b)", "a,b"])
